@@ -1563,6 +1563,30 @@ def rs_str(s):
     return '"' + "".join(ch if (32 <= ord(ch) < 127 and ch not in '"\\') else "\\u{%x}" % ord(ch) for ch in s) + '"'
 
 
+def rs_debug(s):
+    """Rust's `{:?}` rendering of a str"""
+    out = []
+    for ch in s:
+        o = ord(ch)
+        if ch == '"':
+            out.append('\\"')
+        elif ch == "\\":
+            out.append("\\\\")
+        elif ch == "\n":
+            out.append("\\n")
+        elif ch == "\t":
+            out.append("\\t")
+        elif ch == "\r":
+            out.append("\\r")
+        elif ch == "\0":
+            out.append("\\0")
+        elif o < 32 or o == 127:
+            out.append("\\u{%x}" % o)
+        else:
+            out.append(ch)
+    return '"' + "".join(out) + '"'
+
+
 def run_text(ctx, prop, nmax, kmax, bmax):
     from .mirsym.values import bv_bin
     t0 = time.time()
@@ -3120,13 +3144,20 @@ def mk_entry(path, kind, mode=None, children=(), target=None):
 
 
 def mk_memfs(tree, cwd="/"):
-    """tree: {path: ('d', [children]) | ('f', bytes-as-str)}  -> (Memfs value, inner cell)"""
+    """tree: {path: ('d', [children][, mode]) | ('f', bytes-as-str[, mode]) | ('l', target, 'd'|'f'|None)}  -> (Memfs value, inner cell)"""
     entries, files = [], []
     for p, spec in tree.items():
-        if spec[0] == "d":
-            entries.append((T_(p), BoxRef(mk_entry(p, "d", children=spec[1]))))
+        if spec[0] == "l":
+            e = mk_entry(p, "l", target=spec[1])
+            e.fields[3], e.fields[4] = B(spec[2] == "d"), B(spec[2] == "f")
+            e.fields[2] = TP.PathBufT(T_(spec[3]))
+            if spec[2] == "d":
+                e.fields[11] = M.opt_some(None, MM.SetM([]))
+            entries.append((T_(p), BoxRef(e)))
+        elif spec[0] == "d":
+            entries.append((T_(p), BoxRef(mk_entry(p, "d", children=spec[1], mode=spec[2] if len(spec) > 2 else None))))
         elif spec[0] == "f":
-            entries.append((T_(p), BoxRef(mk_entry(p, "f"))))
+            entries.append((T_(p), BoxRef(mk_entry(p, "f", mode=spec[2] if len(spec) > 2 else None))))
             files.append((T_(p), BoxRef(Adt("MemfsFile", None, None, [BV(64, False, 0), M.VecM([BV(8, False, ord(c)) for c in spec[1]]),
                                                                         M.opt_none(None), M.opt_none(None)]))))
     inner = BoxRef(Adt("MemfsInner", None, None, [TP.PathBufT(T_(cwd)), TP.PathBufT(T_("/")), MM.MapM(entries), MM.MapM(files)]))
@@ -3195,7 +3226,24 @@ class MemRun:
                 on_done(st, st.meta["results"], st.meta["inner"], i)
                 return
             name, vals = calls[i]
-            if name.startswith("@"):
+            if name.startswith("@@"):
+                # call of a rivia method on the value an earlier call returned: ("@@Type::method" [+ "&" = by reference], [index, args...])
+                prev = st.meta["results"][vals[0]]
+                pv = prev[1]
+                if prev[0] == "ret" and isinstance(pv, Adt) and pv.ty == "Result":
+                    pv = pv.fields[0] if pv.variant == 0 else None
+                if prev[0] != "ret" or pv is None:
+                    st.meta["results"] = st.meta["results"] + [("skip", None)]
+                    st3 = State()
+                    st3.done, st3.pc, st3.meta = True, list(st.pc), dict(st.meta)
+                    st3.meta["i"] = -2 - i
+                    return [st3]
+                byref = name.endswith("&")
+                fn = ex.auto.resolve(name[2:].rstrip("&"))
+                if fn is None:
+                    raise Unsupported("%s not found in the MIR dump" % name[2:])
+                st2 = ex.start(fn, [BoxRef(pv) if byref else pv] + list(vals[1:]))
+            elif name.startswith("@"):
                 # pseudo call on a handle returned by an earlier call: ("@write"|"@flush"|"@drop", [index of that call, data?])
                 hres = st.meta["results"][vals[0]][1]
                 if not (isinstance(hres, Adt) and hres.ty == "Result" and hres.variant == 0):
@@ -3336,6 +3384,8 @@ def store_same(ex, st, a, b):
 
 TREE1 = {"/": ("d", ["a", "b"]), "/a": ("d", ["b"]), "/a/b": ("f", "x"), "/b": ("f", "yz")}
 TREE2 = {"/": ("d", ["a", "b"]), "/a": ("d", ["a", "b"]), "/a/a": ("d", ["a"]), "/a/a/a": ("d", []), "/a/b": ("f", "x"), "/b": ("f", "yz")}
+# a tree with distinguishable modes and a link to a file (for copy / move)
+TREE3 = {"/": ("d", ["a", "b"]), "/a": ("d", ["a", "b"], 0o40750), "/a/a": ("l", "/b", "f", "../b"), "/a/b": ("f", "x", 0o100600), "/b": ("f", "yz")}
 MEM_ALPHA = "/ab."
 
 # method -> (argument kinds, may it report failure and must then leave the tree untouched?)
@@ -3346,7 +3396,7 @@ MEM_OPS = {
     "move_p": (["path2", "path2"], True), "exists": (["path"], False), "is_dir": (["path"], False),
     "is_file": (["path"], False), "is_symlink": (["path"], False), "read_all": (["path"], False), "mode": (["path"], False),
     "readlink": (["path"], False), "readlink_abs": (["path"], False), "chmod": (["path", "mode"], False),
-    "copy": (["path2", "path2"], False),
+    "copy": (["path2", "path2"], False), "copy_b": (["path2", "path2"], False),
 }
 
 
@@ -3372,16 +3422,18 @@ def mem_args(solver, tag, kinds, n, n2):
     return vals, cons, groups
 
 
-def run_memfs_single(ctx, prop, ops, nmax, n2max, cwds=("/", "/a"), tag="mem_single"):
+def run_memfs_single(ctx, prop, ops, nmax, n2max, cwds=("/", "/a"), tag="mem_single", tree=None, pfx=None):
     t0 = time.time()
     run = MemRun(ctx, tag)
     ex, ob = run.ex, run.ob
     unit = dict(status="pass", failures=[])
+    tree = tree or TREE1
     for op in ops:
-        kinds, atomic = MEM_OPS[op]
+        base = op.split("/")[0]
+        kinds, atomic = MEM_OPS[base]
         two = kinds.count("path2") == 2
         shapes = [(a, b) for a in range(1, n2max + 1) for b in range(1, n2max + 1)] if two else [(n, 0) for n in range(1, nmax + 1)]
-        if two and tag.endswith("two3"):
+        if two and (tag.endswith("two3") or (n2max == 3 and tag.startswith("c09_"))):
             shapes = [(a, b) for a, b in shapes if max(a, b) == 3]
         for cwd in cwds:
             for (la, lb) in shapes:
@@ -3394,10 +3446,27 @@ def run_memfs_single(ctx, prop, ops, nmax, n2max, cwds=("/", "/a"), tag="mem_sin
                     groups = {"arg0": g1["arg0"], "arg1": g2["arg0"]}
                 else:
                     vals, cons, groups = mem_args(run.solver, tagx, kinds, la, la)
+                calls, copts = [(op, vals)], None
+                if base == "copy_b":
+                    sel, fol = op.split("/")[1:]
+                    calls, copts = [("copy_b", vals)], dict(sel=sel, follow=fol == "1", mode=None)
+                    if sel != "none":
+                        mv, mc, _ = mem_args(run.solver, tagx + "m", ["mode"], 0, 0)
+                        cons = cons + mc
+                        copts["mode"] = mv[0]
+                        groups = dict(groups, mode=[mv[0]])
+                        calls.append(("@@Copier::chmod_%s" % sel, [len(calls) - 1, mv[0]]))
+                    if fol == "1":
+                        calls.append(("@@Copier::follow", [len(calls) - 1, B(True)]))
+                    calls.append(("@@Copier::exec&", [len(calls) - 1]))
 
-                def on_done(st, results, inner, i, op=op, groups=groups, cwd=cwd, atomic=atomic):
+                def on_done(st, results, inner, i, op=op, groups=groups, cwd=cwd, atomic=atomic, base=base, copts=copts):
                     cf = lambda extra: text_model(ex, st, groups, extra)
                     last = results[-1]
+                    for r in results:
+                        if r[0] in ("panic", "bound") or (r[0] == "ret" and isinstance(r[1], Adt) and r[1].ty == "Result" and r[1].variant == 1):
+                            last = r  # the first step that fails decides the outcome of the whole builder chain
+                            break
                     if last[0] in ("panic", "bound"):
                         ob.total += 1
                         ob.failures.append(dict(kind="panic" if last[0] == "panic" else "bound", where="Memfs::" + op, op=op, cwd=cwd,
@@ -3408,11 +3477,13 @@ def run_memfs_single(ctx, prop, ops, nmax, n2max, cwds=("/", "/a"), tag="mem_sin
                         ob.prove(ex, st, desc + " (after %s, cwd %s)" % (op, cwd), f, cf) or ob.failures[-1].update(op=op, cwd=cwd, where="Memfs::" + op)
                     rv = last[1]
                     failed = isinstance(rv, Adt) and rv.ty == "Result" and rv.variant == 1
-                    if op in REF_OPS:
+                    rop = "copy" if base == "copy_b" else op
+                    if rop in REF_OPS:
                         # C01, first sentence, for one call: result and resulting tree equal the reference filesystem
+                        op = rop if base != "copy_b" else op
                         pa = abs_oracle(ex, st, groups["arg0"], T_(cwd), run.tenv)
                         pb = None
-                        if op in ("symlink", "move_p", "copy") and pa[0] == "ok":
+                        if rop in ("symlink", "move_p", "copy") and pa[0] == "ok":
                             a1 = groups["arg1"]
                             if op == "symlink" and not ex.decide(st, TP.is_ch(a1[0], TP.SLASH)):
                                 a1 = list(TP.parent_text(ex, st, pa[1]) or T_("/")) + T_("/") + list(a1)
@@ -3426,13 +3497,46 @@ def run_memfs_single(ctx, prop, ops, nmax, n2max, cwds=("/", "/a"), tag="mem_sin
                                 ob.failures[-1].update(op=op, cwd=cwd, where="Memfs::" + op)
                         elif pa[0] == "ok":
                             ref = ref_from_snapshot(ex, st, st.meta["before"])
-                            out, rpath = ref_apply(ex, st, ref, op, [pa[1]] + ([pb[1]] if pb else []), groups.get("data1"))
+                            out, rpath = ref_apply(ex, st, ref, rop, [pa[1]] + ([pb[1]] if pb else []), groups.get("data1"), copts)
                             if out != "skip":
                                 ob.prove(ex, st, "C01: %s succeeds/fails as the reference filesystem does (cwd %s)" % (op, cwd),
                                          B(failed == (out == "err")), cf) or ob.failures[-1].update(op=op, cwd=cwd, where="Memfs::" + op)
                                 if out == "ok" and not failed:
-                                    ob.prove(ex, st, "C01: the tree after %s equals the reference filesystem's (cwd %s)" % (op, cwd),
-                                             ref_matches(ex, st, ref, after), cf) or ob.failures[-1].update(op=op, cwd=cwd, where="Memfs::" + op)
+                                    def cf_ref(extra, ref=ref):
+                                        g2 = dict(groups)
+                                        for k, n in enumerate(ref["nodes"]):
+                                            g2["_k%d" % k] = n["key"]
+                                            g2["_m%d" % k] = [n["mode"]]
+                                            if n["kind"] == "f":
+                                                g2["_c%d" % k] = n["content"]
+                                            if n["kind"] == "l":
+                                                g2["_a%d" % k] = n["alt"]
+                                        g2["_cwd"] = ref["cwd"]
+                                        m = text_model(ex, st, g2, extra)
+                                        if not m:
+                                            return m
+                                        lines = []
+                                        for k, n in enumerate(ref["nodes"]):
+                                            if m["_k%d" % k] == "/":
+                                                continue
+                                            kind = "dir" if n["kind"] == "d" else "fileSome(%s)" % rs_debug(m["_c%d" % k]) if n["kind"] == "f" else "link->Some(%s)" % rs_debug(m["_a%d" % k])
+                                            lines.append((m["_k%d" % k], "%s %s %o Some((1000, 1000))" % (rs_debug(m["_k%d" % k]), kind, ord(m["_m%d" % k]))))
+                                        out_ = {k: v for k, v in m.items() if not k.startswith("_")}
+                                        if "mode" in out_:
+                                            out_["mode"] = ord(out_["mode"])
+                                        out_["expect_dump"] = "".join(l + "\n" for _, l in sorted(lines)) + "cwd=Some(%s)" % rs_debug(m["_cwd"])
+                                        return out_
+                                    label, formula = "", ref_matches(ex, st, ref, after)
+                                    if copts and ref.get("followed_link"):
+                                        label = " [copy following a link inside the source tree]"
+                                    if copts and copts.get("mode") is not None and ref.get("mode_matters"):
+                                        from .mirsym.values import bv_bin as _bvb
+                                        zero = _bvb("Eq", copts["mode"], BV(32, False, 0))
+                                        ob.prove(ex, st, "C01: the tree after %s equals the reference filesystem's (cwd %s) [requested mode 0]%s" % (op, cwd, label),
+                                                 b_or(b_not(zero), formula), cf_ref) or ob.failures[-1].update(op=op, cwd=cwd, where="Memfs::" + op)
+                                        formula = b_or(zero, formula)
+                                    ob.prove(ex, st, "C01: the tree after %s equals the reference filesystem's (cwd %s)%s" % (op, cwd, label),
+                                             formula, cf_ref) or ob.failures[-1].update(op=op, cwd=cwd, where="Memfs::" + op)
                                     if rpath is not None and isinstance(rv, Adt) and rv.variant == 0 and isinstance(rv.fields[0], TP.PathBufT):
                                         ob.prove(ex, st, "C01: %s returns the absolute path it acted on (cwd %s)" % (op, cwd),
                                                  text_eq(rv.fields[0].chars, rpath), cf) or ob.failures[-1].update(op=op, cwd=cwd, where="Memfs::" + op)
@@ -3444,12 +3548,15 @@ def run_memfs_single(ctx, prop, ops, nmax, n2max, cwds=("/", "/a"), tag="mem_sin
                         if m:
                             ob.samples.append(dict(op=op, cwd=cwd, args=m, failed=failed))
 
-                run.explore(TREE1, cwd, [(op, vals)], cons, on_done)
+                run.explore(tree, cwd, calls, cons, on_done)
     seen = set()
     for f in ob.failures:
+        if pfx:
+            f["desc"] = re.sub(r"^C\d\d:", pfx + ":", f["desc"]) if f["kind"] != "panic" else f["desc"]
         if f["kind"] == "bound" or f["cex"] is None:
             unit["status"], unit["why"] = "inconclusive", f["desc"]
             continue
+        f["tree"] = tree
         key = (f["op"], re.sub(r" \(after.*", "", f["desc"]))
         if key in seen or len(seen) >= 6:
             continue
@@ -3518,6 +3625,16 @@ fn fixture() -> Memfs {
     v.mkdir_p("/a").unwrap();
     v.write_all("/a/b", "x").unwrap();
     v.write_all("/b", "yz").unwrap();
+    v
+}
+
+fn fixture3() -> Memfs {
+    let v = Memfs::new();
+    v.mkdir_m("/a", 0o750).unwrap();
+    v.write_all("/a/b", "x").unwrap();
+    v.chmod("/a/b", 0o600).unwrap();
+    v.write_all("/b", "yz").unwrap();
+    v.symlink("/a/a", "/b").unwrap();
     v
 }
 
@@ -3649,6 +3766,7 @@ impl RefFs {
     fn dump(&self) -> String {
         let mut out = String::new();
         for (k, n) in &self.nodes {
+            if k == "/" { continue; }
             let (kind, mode) = match n {
                 N::D => ("dir".to_string(), 0o40755),
                 N::F(d) => (format!("file{:?}", Some(d)), 0o100644),
@@ -3667,7 +3785,7 @@ REF_OPS = ("mkfile", "mkdir_p", "write_all", "append_all", "remove", "remove_all
 
 def mem_replay_src(f):
     op, cwd, a = f["op"], f["cwd"], f["cex"]
-    kinds = MEM_OPS[op][0]
+    kinds = MEM_OPS[op.split("/")[0]][0]
     args = []
     for i, k in enumerate(kinds):
         if k in ("path", "path2"):
@@ -3677,8 +3795,21 @@ def mem_replay_src(f):
         else:
             args.append("0o644")
     call = "v.%s(%s)" % (op, ", ".join(args))
+    tree = f.get("tree") or TREE1
+    fixture_call = "fixture()" if tree is TREE1 else "fixture3()"
     refcheck = ""
-    if op in REF_OPS and not any(c in a["arg0"] for c in "~$"):
+    if op.startswith("copy_b/"):
+        sel, fol = op.split("/")[1:]
+        mo = a.get("mode", 0)
+        mo = ord(mo) if isinstance(mo, str) and len(mo) == 1 else int(mo or 0)
+        chain = (".chmod_%s(0o%o)" % (sel, mo) if sel != "none" else "") + (".follow(true)" if fol == "1" else "")
+        call = "v.copy_b(%s, %s).and_then(|c| c%s.exec())" % (rs_str(a["arg0"]), rs_str(a["arg1"]), chain)
+        op = "copy_b"
+    if a.get("expect_dump") is not None:
+        refcheck = '''    assert!(!failed, "C01: %s fails where the reference filesystem succeeds");
+    assert_eq!(dump(&v).split("\\n[cwd]").next().unwrap(), %s, "C01: the tree after %s differs from the reference filesystem's");
+''' % (op, rs_str(a["expect_dump"]), op)
+    elif op in REF_OPS and tree is TREE1 and not any(c in a["arg0"] for c in "~$"):
         refcheck = '''    let mut r = RefFs::fixture(%s);
     if let Ok(ok) = r.apply(%s, %s, %s) {
         assert_eq!(!failed, ok, "C01: %s succeeds/fails differently from the reference filesystem");
@@ -3694,7 +3825,7 @@ def mem_replay_src(f):
 #[test]
 fn replay_memfs_op() {
     // %s
-    let v = std::sync::Arc::new(fixture());
+    let v = std::sync::Arc::new(%s);
     v.set_cwd(%s).unwrap();
     let before = dump(&v);
     // run the call on its own thread: a call that never returns (deadlock) must fail the replay, not hang it
@@ -3714,7 +3845,7 @@ fn replay_memfs_op() {
         assert_eq!(dump(&v), before, "C01: failed %s changed the tree");
     }
 %s}
-''' % (f["desc"], rs_str(cwd), call, op, "true" if MEM_OPS[op][1] else "false", op, refcheck)
+''' % (f["desc"], fixture_call, rs_str(cwd), call, op, "true" if MEM_OPS[op][1] else "false", op, refcheck)
 
 
 MEM_FUNCS = ["Memfs::{%s} and everything they call, executed from MIR (auto-inlined rivia code): _abs, _add, _mkdir_m, _symlink, MemfsGuard::*, "
@@ -3736,6 +3867,27 @@ _mk_mem_single("c03_mem_remove", ["remove", "remove_all"], 3, 2, "quick")
 _mk_mem_single("c03_mem_symlink", ["symlink"], 3, 2, "quick")
 _mk_mem_single("c03_mem_move", ["move_p"], 3, 2, "quick")
 _mk_mem_single("c03_mem_copy", ["copy"], 3, 2, "quick")
+
+
+def _mk_c09(name, ops, n2, tier, cwds=("/", "/a")):
+    @job(name, ["C09", "C12"], tier, functions=[MEM_FUNCS[0] % ",".join(sorted(set(o.split("/")[0] for o in ops))) +
+                                                               "; Copier::{chmod_all,chmod_dirs,chmod_files,follow,exec}, Memfs::_copy and the Entries traversal it drives (real MIR)"],
+         bounds="one call from the tree {/, /a (dir, 0750), /a/a -> /b (link), /a/b (file 'x', 0600), /b (file 'yz')} with cwd %s: every (src, dst) pair of texts of 1..=%d chars over "
+                "{'/','a','b','.'}; Copier options %s with any mode <= 0o777" % (" and ".join("'%s'" % c for c in cwds), n2, sorted(set(o.partition("/")[2] for o in ops if "/" in o)) or "-"))
+    def f(ctx, prop):
+        return run_memfs_single(ctx, prop, ops, n2, n2, cwds=cwds, tag=name, tree=TREE3, pfx="C09")
+    return f
+
+
+_mk_c09("c09_copy_plain", ["copy_b/none/0"], 2, "quick")
+_mk_c09("c09_copy_all", ["copy_b/all/0"], 2, "quick")
+_mk_c09("c09_copy_dirs", ["copy_b/dirs/0"], 2, "quick")
+_mk_c09("c09_copy_files", ["copy_b/files/0"], 2, "quick")
+_mk_c09("c09_copy_follow", ["copy_b/none/1", "copy_b/all/1"], 2, "quick")
+_mk_c09("c09_move", ["move_p"], 2, "quick")
+_mk_c09("c09_copy3_plain", ["copy_b/none/0"], 3, "thorough", cwds=("/",))
+_mk_c09("c09_copy3_all_follow", ["copy_b/all/1"], 3, "thorough", cwds=("/",))
+_mk_c09("c09_move3", ["move_p"], 3, "thorough", cwds=("/",))
 _mk_mem_single("c03_mem_create4", ["mkfile", "mkdir_p"], 4, 2, "thorough")
 _mk_mem_single("c03_mem_copy3", ["copy"], 3, 3, "thorough")
 _mk_mem_single("c03_mem_write4", ["write_all", "append_all", "set_cwd", "remove"], 4, 2, "thorough")
@@ -4506,6 +4658,10 @@ def ref_from_snapshot(ex, st, s):
     """reference state: [{key, kind 'd'|'f', content|None, mode, uid, gid}] + cwd (links are not in the fixture)"""
     nodes = []
     for e in s["entries"]:
+        if ex.decide(st, e["link"]):
+            nodes.append(dict(key=list(e["key"]), kind="l", content=None, alt=list(e["alt"]), mode=e["mode"], uid=e["uid"], gid=e["gid"],
+                              tkind="d" if ex.decide(st, e["dir"]) else "f" if ex.decide(st, e["file"]) else None))
+            continue
         kind = "d" if ex.decide(st, e["dir"]) else "f"
         content = None
         if kind == "f":
@@ -4531,7 +4687,7 @@ def ref_children(ex, st, ref, key):
     return out
 
 
-def ref_apply(ex, st, ref, op, paths, data):
+def ref_apply(ex, st, ref, op, paths, data, opts=None):
     """returns (outcome 'ok'|'err'|'skip', returned path text or None); mutates ref on success"""
     p = paths[0]
     is_root = len(TP.tokenize(ex, st, p)) == 1
@@ -4630,14 +4786,27 @@ def ref_apply(ex, st, ref, op, paths, data):
         ts, tf = TP.tokenize(ex, st, src), TP.tokenize(ex, st, final)
         if len(tf) >= len(ts) and all(ex.decide(st, TP.tcomp_eq(a[0], b[0])) for a, b in zip(ts, tf)):
             return ("skip", None)  # onto itself / into its own subtree: not determined by the documentation
+        from .mirsym.values import bv_bin as _bvb
+        o = opts or {}
+        follow = bool(o.get("follow"))
+        sel, om = o.get("sel", "none"), o.get("mode")
+        dmode = om if sel in ("all", "dirs") else None   # the chmod option selects directories
+        fmode = om if sel in ("all", "files") else None  # ... regular files
+        tbits = lambda m, bits: _bvb("BitOr", m, BV(32, False, bits))
+        if node["kind"] == "l":
+            if follow:
+                return ("skip", None)  # following a link given as the source itself: not determined by the documentation
         # destination directories are created as needed; a non-directory on the way is an error
         cur = TP.PathBufT([])
         made = []
+        spar = ref_find(ex, st, ref, TP.parent_text(ex, st, src))
         for t in tf[:-1]:
             TP.push_text(ex, st, cur, t[0].text)
             n = ref_find(ex, st, ref, cur.chars)
             if n is None:
-                made.append(dict(key=list(cur.chars), kind="d", content=None, mode=BV(32, False, 0o40755), uid=BV(32, False, 1000), gid=BV(32, False, 1000)))
+                pm = dmode if dmode is not None else (node["mode"] if node["kind"] == "d" else spar["mode"])
+                made.append(dict(key=list(cur.chars), kind="d", content=None, mode=tbits(pm, 0o40000), uid=BV(32, False, 1000), gid=BV(32, False, 1000), newdir=True))
+                ref["mode_matters"] = ref.get("mode_matters") or dmode is not None
             elif n["kind"] != "d":
                 return ("err", None)
         add = []
@@ -4648,18 +4817,33 @@ def ref_apply(ex, st, ref, op, paths, data):
             nb = TP.PathBufT(list(final))
             for t in tn[len(ts):]:
                 TP.push_text(ex, st, nb, t[0].text)
+            srcn = n
+            if n["kind"] == "l" and follow:
+                ref["followed_link"] = True
+                srcn = ref_find(ex, st, ref, n["alt"])
+                if srcn is None or srcn["kind"] != "f":
+                    return ("skip", None)  # followed link to a directory / dangling: outside the reference
             old = ref_find(ex, st, ref, nb.chars)
             if old is not None:
-                if old["kind"] != n["kind"] or n["kind"] == "l":
-                    return ("skip", None)  # replacing an entry of another kind: not determined by the documentation
-                if n["kind"] == "f":
-                    old["content"] = list(n["content"])
-                    old["mode"] = n["mode"]
+                if old["kind"] != srcn["kind"] or srcn["kind"] == "l":
+                    return ("skip", None)  # replacing an entry of another kind / a link: not determined by the documentation
+                if srcn["kind"] == "f":
+                    old["content"] = list(srcn["content"])  # "entries that already existed are kept" (their mode too); a file's content is replaced
                 continue
-            c = dict(n)
+            c = dict(srcn)
             c["key"] = nb.chars
-            c["content"] = list(n["content"]) if n["content"] is not None else None
+            c["content"] = list(srcn["content"]) if srcn["content"] is not None else None
+            if srcn["kind"] == "d":
+                c["mode"] = tbits(dmode, 0o40000) if dmode is not None else srcn["mode"]
+                ref["mode_matters"] = ref.get("mode_matters") or dmode is not None
+            elif srcn["kind"] == "f":
+                c["mode"] = tbits(fmode, 0o100000) if fmode is not None else srcn["mode"]
+                ref["mode_matters"] = ref.get("mode_matters") or fmode is not None
+            else:
+                c["mode"] = BV(32, False, 0o120777)
+                c["uid"], c["gid"] = BV(32, False, 1000), BV(32, False, 1000)
             add.append(c)
+        # directories created on the way down inherit the same rule as copied directories
         ref["nodes"] += made + add
         return ("ok", None)
     if op == "move_p":
